@@ -298,6 +298,28 @@ func c08Config(rep *verifkit.Report, rng *rand.Rand, up *sysUpstream, ci int) {
 			rep.Class("queries_from_flagged_client_by_" + map[bool]string{true: "clientid", false: "address"}[q.ClientID != "" && (cl == &clients[2] || cl == &clients[3])])
 		}
 	}
+	// Two late queries carrying the same ClientID that no persistent client
+	// owns: the older one from the address of "plain-client", the newer one from
+	// an address nobody owns.  They matter for the late client-flag check.
+	var lateOwned, lateOther *c08Query
+	if !anonNow {
+		for k, src := range []string{"127.0.3.20", "127.0.4.1"} {
+			q := &c08Query{Unique: fmt.Sprintf("late%d-%s", k, tag), Src: src, Qtype: dns.TypeA, Via: "doh", ClientID: "other-cid", Logged: true, Counted: true}
+			q.Name = q.Unique + ".late.verif.example"
+			if k == 0 {
+				q.Client = "plain-client"
+			}
+			if q.Answered = c08DoH(in, q.Src, q.ClientID, q.Name, q.Qtype); q.Answered {
+				qs = append(qs, q)
+				rep.Eval(true, fmt.Sprintf("%d|late|%d", ci, k))
+				if k == 0 {
+					lateOwned = q
+				} else {
+					lateOther = q
+				}
+			}
+		}
+	}
 	// The root name: ignored for the log in every third configuration.
 	rootIgnored := ci%3 == 2
 	rootAnswered := 0
@@ -335,6 +357,24 @@ func c08Config(rep *verifkit.Report, rng *rand.Rand, up *sysUpstream, ci int) {
 	_, _, _ = in.API("PUT", "/control/querylog/config/update", map[string]any{"enabled": true, "anonymize_client_ip": anonAfter, "interval": 86400000, "ignored": lateIgnored})
 	_, body2, _ := in.API("GET", "/control/querylog?limit=100000", nil)
 	apiLogLate := strings.ToLower(string(body2))
+
+	// Later still: a client whose queries were logged gets ignore_querylog; the
+	// API must stop returning its entries, whatever ClientID they carry.  (Only
+	// judged without anonymisation: a masked stored address cannot be traced
+	// back to the client.)
+	var apiLogClientLate string
+	if lateOwned != nil && lateOther != nil {
+		st, b, aerr := in.API("POST", "/control/clients/update", map[string]any{"name": "plain-client", "data": map[string]any{
+			"name": "plain-client", "ids": []string{"127.0.3.20"}, "use_global_settings": true, "use_global_blocked_services": true,
+			"tags": []string{}, "upstreams": []string{}, "ignore_querylog": true, "ignore_statistics": false}})
+		if aerr == nil && st == 200 {
+			_, b3, _ := in.API("GET", "/control/querylog?limit=100000", nil)
+			apiLogClientLate = strings.ToLower(string(b3))
+			rep.Class("late_client_flag_checks")
+		} else {
+			rep.Inconcl(fmt.Sprintf("clients/update: %d %v %s", st, aerr, b))
+		}
+	}
 
 	// ---- Clean shutdown, then the files. ------------------------------------
 	if !in.Stop(20 * time.Second) {
@@ -392,6 +432,12 @@ func c08Config(rep *verifkit.Report, rng *rand.Rand, up *sysUpstream, ci int) {
 		} else {
 			if !inAPI && !inFile {
 				rep.Violate("logged-query-missing", "a query that must be logged is neither in the API listing nor in the file", w("nowhere"))
+			}
+			if apiLogClientLate != "" && q == lateOther && !strings.Contains(apiLogClientLate, label) {
+				rep.Violate("entry-of-unflagged-client-hidden", "after another client was flagged ignore_querylog the log API no longer returns an entry of a client that is not flagged", w("GET /control/querylog after the client was flagged"))
+			}
+			if apiLogClientLate != "" && q == lateOwned && strings.Contains(apiLogClientLate, label) {
+				rep.Violate("now-ignored-client-still-returned", "the log API still returns an entry of a client that is flagged ignore_querylog now", w("GET /control/querylog after the client was flagged"))
 			}
 			if strings.Contains(strings.ToLower(q.Name), ".plain.verif.example") && strings.Contains(apiLogLate, label) {
 				rep.Violate("now-ignored-name-still-returned", "the log API still returns an entry whose name is on the ignore list now", w("GET /control/querylog after the list changed"))
